@@ -585,6 +585,39 @@ def check(run, repo, world):
            "besides the type tests the result also depends on `%s`: some "
            "pairs of clean answer bytes give None although they are a "
            "colour value" % "`, `".join(sorted(extra)), where(mod, anode))
+    # ... and what was assembled is what comes back: from the assembly's
+    # normal completion every path returns that value, unchanged and
+    # whatever it is (a stored value of 0 is a value)
+    if not (anode.kind == "stmt" and isinstance(anode.ast, ast.Return)):
+        from ..seq import assigned_names
+        lost = None
+        seen, stack = set(), [(m_, [anode]) for (l_, m_) in anode.succ
+                              if l_ != "exc"]
+        while stack and lost is None:
+            n_, path_ = stack.pop()
+            if n_.id in seen:
+                continue
+            seen.add(n_.id)
+            if n_.kind == "stmt" and isinstance(n_.ast, ast.Return):
+                if not (isinstance(n_.ast.value, ast.Name) and
+                        n_.ast.value.id == avar):
+                    lost = path_ + [n_]
+                continue
+            if n_ is cfg.exit or (
+                    n_.kind == "stmt" and n_.ast is not None and
+                    avar in assigned_names(n_.ast)):
+                lost = path_ + [n_]
+                continue
+            stack += [(m_, path_ + [n_]) for (l_, m_) in n_.succ
+                      if l_ != "exc"]
+        run.ob("R-DT8-NONE", F + "#assembled-value-returned",
+               lost is None,
+               "after the two answers were assembled into `%s` a path ends "
+               "without returning it (%s): a value the unit reported - for "
+               "instance 0 - comes back as something else" % (
+                   avar, " -> ".join("L%s:%s" % (x_.lineno, unparse(
+                       x_.ast, 30)) for x_ in (lost or [])
+                       if x_.ast is not None)), where(mod, anode))
     # `.value` is only there on a response object: a runner may hand the
     # sequence None (or a marker) for an unanswered query, and a handler for
     # TypeError does not catch the AttributeError that follows
